@@ -51,6 +51,12 @@ def run_check(pid: str, tier: str, seed: int, only_defs=None, replay_mode=False)
         coq = {"ok": True, "problems": [], "obligations": 0, "discharged": 0, "assumptions": {}, "dep_files": []}
     else:
         coq = R.coq_build(mod.PROP_FILE, mod.THEOREMS)
+    if tier == "thorough" and coq["ok"] and not os.environ.get("VERIF_NO_COQCHK"):
+        chk = R.coqchk(mod.PROP_FILE)
+        coq["coqchk"] = chk
+        if not chk["ok"]:
+            coq["ok"] = False
+            coq["problems"].append("coqchk: %s" % chk)
     R.log("coq: ok=%s obligations=%s" % (coq["ok"], coq.get("obligations")))
     proof_broken = not coq["ok"]
 
@@ -231,6 +237,7 @@ def run_check(pid: str, tier: str, seed: int, only_defs=None, replay_mode=False)
             "checker_cmd": "make -C coq %s (coqc 8.16.1) + Print Assumptions on %s" % (mod.PROP_FILE[:-2] + ".vo", ", ".join(mod.THEOREMS)),
             "trusted_base": R.TRUSTED_BASE + list(getattr(mod, "TRUSTED", [])),
             "theorems": coq.get("assumptions", {}),
+            "coqchk": coq.get("coqchk", "quick tier: not run (thorough tier re-checks the compiled files with coqchk -o)"),
             "proof_files": coq.get("dep_files", []),
             "programs": programs, "evaluations": evaluations, "distinct_nontrivial": len(nontrivial),
             "traces_validated_against_impl": checked_traces,
